@@ -128,6 +128,7 @@ func props() map[string]Prop {
 				{Name: "counter", Pkg: "internal/counter", Harness: "internal_counter", Run: "^TestVerifC05", Instrument: append(append([]string{}, counterInstr...), "internal/telemetry"), Timeout: 40 * time.Minute},
 				{Name: "public", Pkg: "counter", Harness: "counter_public", Run: "^TestVerifPublic$", Timeout: 30 * time.Minute},
 				{Name: "uploader", Pkg: "internal/upload", Harness: "internal_upload", Run: "^TestVerifC05Upload$", Instrument: append(append([]string{}, uploadInstr...), "internal/counter"), Timeout: 30 * time.Minute},
+				{Name: "runpublic", Pkg: "internal/upload", Harness: "internal_upload", Run: "^TestVerifC01Public$", Instrument: uploadInstr, Timeout: 30 * time.Minute},
 			},
 			Assume: []string{
 				"faults are injected at the instrumented package-level os/syscall calls and *os.File methods of internal/counter, internal/mmap and internal/telemetry",
